@@ -13,9 +13,8 @@ Definition no_ctl (s : str) : bool := forallb (fun c => N.leb 32 c) s.
 (* raw name selector text: 'body' | "body" | shorthand *)
 Definition name_kind (raw : str) : N :=
   match raw with
-  | 39%N :: _ => 1%N
-  | 34%N :: _ => 2%N
-  | _ => 0%N
+  | c :: _ => if N.eqb c 39 then 1%N else if N.eqb c 34 then 2%N else 0%N
+  | [] => 0%N
   end.
 Definition quoted_ok (q : N) (raw : str) : bool :=
   match raw with
